@@ -565,7 +565,7 @@ func runMinMaxSpellings(c *engine.Ctx) {
 			pre = "length:"
 		}
 		for _, r0 := range []string{"", "0..10", "0..4 | 6..10"} {
-			for _, d := range []string{"min", "max", "min..min", "max..max", "min..max", "min..4", "6..max", "min | max", "min | 6..max", "0..4 | max", "min..2 | max", "min | 2..4 | max"} {
+			for _, d := range []string{"min", "max", "min..min", "max..max", "min..max", "min..4", "6..max", "min | max", "min | 6..max", "0..4 | max", "min..2 | max", "min | 2..4 | max", "min..2 | 4..6", "min..2 | 4", "min..1 | 3..4 | 6..max", "0..2 | 4..max", "0 | 2..3 | 5..max"} {
 				if r0 == "" && strings.ContainsAny(d, "0246") && strings.Contains(d, "0..4") && base == "int8" {
 					// (0..4 is inside every base: nothing special)
 				}
